@@ -438,7 +438,56 @@ def r05_8(ctx):
         ctx.undecided('R05.8', vh.qual, src(top[0])[:100], top[0], 'composition order not recognised')
 
 
+def r05_9(ctx):
+    """represent_fine zeroes rows of the level prolongator IN PLACE (truncation).  That is sound only while the matrix it
+    works on is private: every producer it is taken from (utils.multi_kron_sparse, utils.kron_partial) returns a freshly
+    built matrix on every path -- a producer that hands back one of its arguments (the stored hmesh.P[k][0] for a 1D
+    space) makes the first THB representation corrupt the stored tensor-product prolongators for good."""
+    from sa import effects
+    rf = ctx.prog.func('pyiga.hierarchical.HSpace.represent_fine')
+    stores = [s_ for s_ in ast.walk(rf.node) if isinstance(s_, ast.Assign) and isinstance(s_.targets[0], ast.Subscript)
+              and isinstance(s_.targets[0].value, ast.Name) and isinstance(s_.value, ast.Constant) and s_.value.value == 0]
+    if not stores:
+        ctx.met('R05.9', rf.qual, 'no in-place zeroing of a prolongator', rf.node, 'nothing to protect')
+        return
+    summ = effects.build_summaries(ctx.prog, modules={'pyiga.utils', 'pyiga.hierarchical'})
+    for st in stores:
+        name = st.targets[0].value.id
+        defs = [d for d in own_nodes(rf.node) if isinstance(d, ast.Assign) and any(isinstance(t, ast.Name) and t.id == name for t in d.targets)]
+        for d in defs:
+            calls = [c for c in ast.walk(d.value) if isinstance(c, ast.Call) and (call_name(c) or '').split('.')[0] == 'utils']
+            for c in calls:
+                prod = (call_name(c) or '').split('.')[-1]
+                fresh = summ.get(prod) == 'fresh'
+                fi = ctx.prog.maybe_func('pyiga.utils.' + prod)
+                ctx.decide('R05.9', rf.qual, '%s = %s(...); %s' % (name, call_name(c), src(st)[:50]), True if fresh else (False if fi is not None else None), c,
+                           'utils.%s returns a freshly built matrix on every path' % prod if fresh else
+                           'utils.%s can return one of its arguments (no copy on some path); represent_fine then zeroes rows of the STORED '
+                           'prolongator hmesh.P[k] in place: after one THB representation of a univariate space every HB-side quantity '
+                           '(represent_fine(truncate=False), virtual_hierarchy_prolongators, prolongate_to) is wrong' % prod, definite=True)
+
+
+def r05_10(ctx):
+    """bspline.prolongation returns a (numdofs(kv2) x numdofs(kv1)) matrix for EVERY pair: scipy's spsolve returns a 1-D
+    array when the right-hand side has a single column, and csr_matrix of a 1-D array is a ROW -- the result must be brought
+    back to the shape of the right-hand side."""
+    f = ctx.prog.func('pyiga.bspline.prolongation')
+    sp = [s_ for s_ in own_nodes(f.node) if isinstance(s_, ast.Assign) and any(isinstance(c, ast.Call) and (call_name(c) or '').endswith('spsolve') for c in ast.walk(s_.value))]
+    if not sp:
+        ctx.met('R05.10', f.qual, 'no spsolve with a matrix right-hand side', f.node)
+        return
+    text = src(f.node).replace(' ', '')
+    reshaped = any(isinstance(c, ast.Call) and ((isinstance(c.func, ast.Attribute) and c.func.attr == 'reshape') or call_name(c) in ('np.reshape', 'np.atleast_2d'))
+                   for c in ast.walk(f.node)) or '.shape=' in text
+    ctx.decide('R05.10', f.qual, src(sp[0]), True if reshaped else False, sp[0],
+               'the solution is given the shape of the right-hand side' if reshaped else
+               'spsolve squeezes a one-column right-hand side to 1-D and csr_matrix turns that into a row: for a source basis with a single '
+               'function (degree 0, one span) prolongation(kv1, kv2) has shape (1, n2) instead of (n2, 1)', definite=True)
+
+
 def run(ctx):
+    r05_10(ctx)
+    r05_9(ctx)
     r05_8(ctx)
     r05_7(ctx)
     r05_6(ctx)
